@@ -16,8 +16,9 @@
 //	nem  - like nok, but the listener does not know queryretire and answers ""
 //	dead - hosted according to the configuration but INodeApp.GetService is nil when the node starts
 //
-// `reset ... lst=<P|M...>`: FilterSelfServices is the REAL node/app.App.FilterSelfServices of an App started on
-// a generated config dir whose node lists the hosted services (P) interleaved with unconfigured names (M).
+// `reset ... lst=<P|F|W|G|T|A|M...>`: FilterSelfServices is the REAL node/app.App.FilterSelfServices of an App started on
+// a generated config dir whose node lists the hosted services (P backend, F/W/G frontend = gate, T another type,
+// A backend with a client address: see svcAttrs) interleaved with unconfigured names (M).
 // GetService is the REAL node/app.App.GetService over the App's cluster directory, fed like a discovery
 // provider would: `res i=<k> up=0|1` drops / restores s<k> in the node's member record; `reflect` (or
 // `reset ... refl=auto`, at once) makes the directory show the node state published last.
@@ -164,6 +165,23 @@ func (noopCreator) Create(name string) {}
 
 const launchMode = "c12verif"
 
+// svcAttrs: the `services:` entry of a hosted service per pattern letter. The controller hosts - tracks,
+// probes, tells, waits for - every configured service of the node whatever its attributes say.
+//
+//	P backend (Type only)              F frontend (gate) with a tcp client address
+//	W frontend with a ws address only  G frontend flag alone
+//	T backend of another service type  A backend that (oddly) carries a client address
+var svcAttrs = map[rune]string{
+	'P': "    Type: c12svc\n",
+	'F': "    Type: c12gate\n    Frontend: true\n    ClientAddress: 127.0.0.1:39513\n",
+	'W': "    Type: c12gate\n    Frontend: true\n    WSClientAddress: 127.0.0.1:39514\n",
+	'G': "    Type: c12svc\n    Frontend: true\n",
+	'T': "    Type: c12gate\n",
+	'A': "    Type: c12svc\n    ClientAddress: 127.0.0.1:39515\n",
+}
+
+const hostedLetters = "PFWGTA"
+
 var (
 	cfgApps = map[string]*app.App{}
 	cfgInit bool
@@ -171,12 +189,13 @@ var (
 
 // cfgApp returns (cached per pattern) a real App prepared and started on a generated configuration
 // directory: one node `n1`, clustering and the App's own node control off, whose `Services:` list is
-// given by the pattern - P: the next hosted service s<i> (configured under `services:`), M: a name
-// without configuration (the App logs and skips it).
+// given by the pattern - P/F/W/G/T/A: the next hosted service s<i> (configured under `services:` with the
+// attributes of svcAttrs), M: a name without configuration (the App logs and skips it).
 func cfgApp(pattern string) *app.App {
 	if !cfgInit {
 		cfgInit = true
 		nservice.Factory.Register("c12svc", noopCreator{})
+		nservice.Factory.Register("c12gate", noopCreator{})
 		baseapp.RegisterLaunchFunc(launchMode, func(interfaces.IApp) {})
 	}
 	if a, ok := cfgApps[pattern]; ok {
@@ -189,11 +208,11 @@ func cfgApp(pattern string) *app.App {
 	var names, entries []string
 	np, nm := 0, 0
 	for _, ch := range pattern {
-		if ch == 'P' {
+		if ch != 'M' {
 			name := fmt.Sprintf("s%d", np)
 			np++
 			names = append(names, name)
-			entries = append(entries, "  "+name+":\n    Type: c12svc\n")
+			entries = append(entries, "  "+name+":\n"+svcAttrs[ch])
 		} else {
 			names = append(names, fmt.Sprintf("x%d", nm))
 			nm++
@@ -499,8 +518,8 @@ func newWorld(kinds []string, stopMode string, delays []time.Duration, pattern s
 	prov := &provStub{r: w.r, delays: delays, fails: fails}
 	app.Node.SetProvider(prov)
 	resolving = w
-	np := strings.Count(pattern, "P")
-	if np != len(kinds) || strings.Trim(pattern, "PM") != "" {
+	np := len(pattern) - strings.Count(pattern, "M")
+	if np != len(kinds) || strings.Trim(pattern, hostedLetters+"M") != "" {
 		pattern = strings.Repeat("P", len(kinds))
 	}
 	w.app = &recApp{sys: w.sys, pids: map[string]*actor.PID{}, r: w.r, stopMode: stopMode, real: app.Node,
@@ -802,13 +821,33 @@ func (g *gen) reset() (string, []string) {
 		op += " refl=auto"
 	}
 	// the node's service list as the real App reads it: unconfigured names first / in the middle / last
+	// and what the services table says about each hosted service: frontends (gates) next to backends,
+	// other service types, client addresses - the controller hosts them all alike
+	pat := []byte(strings.Repeat("P", n))
+	if n > 0 && h.R.Intn(3) == 0 {
+		front := false
+		for i := range pat {
+			if h.R.Intn(2) == 0 {
+				pat[i] = "FFFWGGTA"[h.R.Intn(8)]
+				front = front || strings.IndexByte("FWG", pat[i]) >= 0
+			}
+		}
+		h.Count("reset.service-attributes")
+		if front {
+			h.Count("reset.hosts-a-frontend")
+			if strings.Trim(string(pat), "FWG") != "" {
+				h.Count("reset.frontend-next-to-backend")
+			}
+		}
+	}
 	if h.R.Intn(3) == 0 {
-		pat := []byte(strings.Repeat("P", n))
 		for k := 1 + h.R.Intn(2); k > 0; k-- {
 			at := h.R.Intn(len(pat) + 1)
 			pat = append(pat[:at], append([]byte{'M'}, pat[at:]...)...)
 		}
 		h.Count("reset.list-with-unconfigured")
+	}
+	if string(pat) != strings.Repeat("P", n) {
 		op += " lst=" + string(pat)
 	}
 	// provider latency per publication (ms of virtual time): none / random / first slow, later fast
@@ -1078,6 +1117,8 @@ func TestExhaustive(t *testing.T) {
 		resLetters := append(append([]string{}, core[:6]...), "res i=0 up=0", "res i=0 up=1", "res i=1 up=0", "cmd web_retire")
 		enum("raw-raw-resolve", "reset k=raw,raw lst=PMP", resLetters, hx.EnvInt("VERIF_EXH_LEN3", 5))
 		enum("nok-nem", "reset k=nok,nem lst=MPP", full, 3)
+		enum("frontend-raw-backend-nok", "reset k=raw,nok lst=FP", full, 3)
+		enum("backend-raw-frontend-raw", "reset k=raw,raw lst=TMG stop=inline1", core, hx.EnvInt("VERIF_EXH_LEN2", 4))
 		enum("raw-raw-reflect", "reset k=raw,raw", append(append([]string{}, core[:7]...), "reflect", "cmd web_retire"), hx.EnvInt("VERIF_EXH_LEN3", 5))
 		enum("raw-nok-reflect-auto", "reset k=raw,nok refl=auto stop=inline1", full, hx.EnvInt("VERIF_EXH_LEN2", 4))
 		enum("raw-inline1-slowfirst", "reset k=raw stop=inline1 pd=300,200,100,0,0,0", full, hx.EnvInt("VERIF_EXH_LEN2", 4))
